@@ -207,12 +207,9 @@ class _EmptyInterp:
         d = _dotted(c.func)
         if d and d.split(".")[0] in LOG_ROOTS:
             return
-        if isinstance(c.func, ast.Attribute) and c.func.attr in ("empty", "update"):
+        if isinstance(c.func, ast.Attribute) and c.func.attr == "empty":
             b, rest = _bucket_of(c.func.value, self.rel)
-            ok_args = (c.func.attr == "empty" and not c.args and not c.keywords) or \
-                      (c.func.attr == "update" and len(c.args) == 1 and isinstance(c.args[0], ast.Constant)
-                       and c.args[0].value is None)
-            if b is not None and rest == [] and ok_args:
+            if b is not None and rest == [] and not c.args and not c.keywords:
                 self.clear(b, certain)
                 return
         _err(self.rel, c, f"statement of an unknown shape in {self.cls}.empty")
